@@ -19,4 +19,18 @@ Conj(q, lb, g, ext, bits, ln, cr) ==
     IN  Min2(Min2(fieldSec, querySec) - 1, cr)
 
 AcceptMin(level, minimum) == level >= minimum
+
+\* The proven estimate is a maximum over the proximity parameter m of the list-decoding regime.  Theorem 8 of eprint 2022/1216
+\* applies to m only when the agreement parameter (1 + 1/2m) * sqrt(rho) exceeds sqrt(rho+), rho = 1/b, rho+ = (n + 2)/(n*b);
+\* squaring and clearing denominators this is exactly  n * (4m + 1) > 8 m^2  (no rounding, no dependence on the blowup).
+\* The code scans m = 3 .. UpperM(n) - 1, UpperM being the first m that is not admissible, capped at 1000.
+MaxProximity == 1000
+Admissible(n, m) == m >= 3 /\ n * (4 * m + 1) > 8 * m * m
+UpperM(n) == Min2(MaxProximity, CHOOSE m \in 3..(n + 3) : ~Admissible(n, m) /\ \A k \in 3..(m - 1) : Admissible(n, k))
+\* f[k] is the level for m = k + 2; the estimate is the best admissible one, capped by the collision resistance; a parameter
+\* the theorem does not apply to contributes no security
+ProvenFrom(f, n, cr) ==
+    LET adm == {m \in 3..(Len(f) + 2) : Admissible(n, m) /\ m < MaxProximity}
+        best == IF adm = {} THEN 0 ELSE CHOOSE v \in {f[m - 2] : m \in adm} : \A m \in adm : f[m - 2] <= v
+    IN  Min2(best, cr)
 =============================================================================
